@@ -68,11 +68,11 @@ def run_case(case):
     res = Result(case)
     sl = StepLog()
     m, tr, err = forward(spec, lambda started: [sl])
-    res.absorb(tr)
     res["source"] = case.get("source")
     res.count("C05.runs")
     res.count("C05.kind." + case["kind"])
     if err is not None:
+        res.absorb(tr, props=("C05",))
         res["aborted"] = err
         nested = any(c["children"] for c in spec["comps"])
         res.violate("C05", "C05/exception-from-simulate:%s:%s%s" % (err["type"], err["where"], ":nested-product" if nested else ""),
@@ -80,8 +80,7 @@ def run_case(case):
         return res
     p = m.project
     M.check_status(tr, p, spec["sim"]["max_time"], sl.steps)
-    for v in tr.violations:
-        res["violations"].append(v)
+    res.absorb(tr, props=("C05",))
     allfin = all(t.state == M.TS.FINISHED for t in p.workflow.task_list)
     if case["kind"] == "feasible":
         res.count("C05.feasible_runs")
